@@ -162,6 +162,10 @@ func (m *Mailbox) encodeEnvelopWithLength(envelop vivid.Envelop) ([]byte, error)
 	if err != nil {
 		return nil, err
 	}
+	// 接收端拒绝超过 4MB 的帧：在发送端直接报告编码失败（进入死信），而不是写出一个必然被丢弃的帧
+	if len(data) == 0 || len(data) > 4*1024*1024 {
+		return nil, vivid.ErrorInvalidMessageLength.WithMessage(fmt.Sprintf("length: %d", len(data)))
+	}
 	lengthBuf := make([]byte, 4)
 	binary.BigEndian.PutUint32(lengthBuf, uint32(len(data)))
 	return append(lengthBuf, data...), nil
